@@ -57,6 +57,16 @@ class OrderedSet:
         return iter(items)
 
 
+class _BadIterable:
+    """An input whose __iter__ itself raises."""
+
+    def __init__(self, call_no):
+        self.call_no = call_no
+
+    def __iter__(self):
+        raise Boom("iterator", self.call_no, -1)
+
+
 class Boom(Exception):
     """Raised by failing tasks / failing input iterators of the harness."""
 
@@ -497,7 +507,9 @@ def _caller_program(cfg, env, obs):
                     env.hold_after = (c, spec["hold_after"])
                 if spec.get("hold_count") is not None:
                     env.hold_count = (c, spec["hold_count"])
-                if spec.get("input", "gen") == "gen":
+                if spec.get("iter_raises"):
+                    inp = _BadIterable(c)
+                elif spec.get("input", "gen") == "gen":
                     inp = gen_inputs(env, c, n, spec.get("iter_fail_at"))
                 else:
                     inp = [delayed(env.run_task)(c, i) for i in range(n)]
